@@ -783,3 +783,57 @@ Proof.
   pose proof (own_le_total vr a r s0 0 (get (s_public s0) a)) as Hle.
   assert (0 <= get (s_public s0) a) by lia. specialize (Hle H). lia.
 Qed.
+
+(* ---------- the whitelist's answers against what its admin intended ---------- *)
+(* The limit and the cap reach the minter only through the whitelist's answers to this very
+   call.  For ANY intended per-address entitlement `ient` and stage cap `icap` (the harness
+   keeps them in its own ledger of accepted admin messages): if the answers are faithful to
+   them, the count and the stage total stay within the intended values; and if a count
+   passes an intended value, the whitelist answered with a larger figure. *)
+Theorem faithful_whitelist_within_intended vr (ient icap : N) s e fp wv stage proof alloc choice s' ms :
+  step vr s e fp wv (OMint stage proof alloc choice) = Ok (s', ms) ->
+  wl_phase s wv = true ->
+  (forall v ent, wv = Some v -> entitlement vr v proof alloc = Some ent -> ent <= ient) ->
+  (forall v sl, wv = Some v -> active_slot v = Some sl -> is_stage sl = true ->
+     exists lim, wv_stage_limit v = Some (Some lim) /\ lim <= icap) ->
+  exists v sl, wv = Some v /\ active_slot v = Some sl /\
+    get (slot_map s' sl) (e_sender e) <= ient /\
+    (is_stage sl = true -> stage_total s' sl <= icap).
+Proof.
+  intros H Hph Hent Hcap. apply whitelist_mint_step in H; [ | exact Hph ].
+  destruct H as (v & sl & ent & Hwv & _ & _ & Hsl & He & Hlt & Hroom & Hinc & _ & _ & Htot & _).
+  exists v, sl. split; [ exact Hwv | ]. split; [ exact Hsl | ].
+  specialize (Hent v ent Hwv He). split; [ rewrite Hinc; lia | ].
+  intros Hst. destruct (Hcap v sl Hwv Hsl Hst) as (lim & Hl & Hle).
+  destruct (Hroom Hst) as (ol & Hol & Hr). rewrite Hl in Hol. inv Hol.
+  specialize (Hr lim eq_refl). rewrite (Htot Hst). lia.
+Qed.
+
+Theorem excess_blames_whitelist_answer vr (ient : N) s e fp wv stage proof alloc choice s' ms :
+  step vr s e fp wv (OMint stage proof alloc choice) = Ok (s', ms) ->
+  wl_phase s wv = true ->
+  forall v sl, wv = Some v -> active_slot v = Some sl ->
+    ient < get (slot_map s' sl) (e_sender e) ->
+    exists ent, entitlement vr v proof alloc = Some ent /\ ient < ent.
+Proof.
+  intros H Hph v0 sl0 Hwv0 Hsl0 Hex. apply whitelist_mint_step in H; [ | exact Hph ].
+  destruct H as (v & sl & ent & Hwv & _ & _ & Hsl & He & Hlt & _ & Hinc & _).
+  rewrite Hwv0 in Hwv. inv Hwv. rewrite Hsl0 in Hsl. inv Hsl.
+  exists ent. split; [ exact He | ]. rewrite Hinc in Hex. lia.
+Qed.
+
+(* over a history: the number of whitelist mints `a` completed in a slot is within the intended
+   entitlement at every mint whose whitelist answers were faithful to it *)
+Theorem never_exceeds_intended vr a sl (ient : N) s0 cs1 c s2 ms :
+  let s1 := run vr s0 cs1 in
+  cstep vr s1 c = Ok (s2, ms) ->
+  is_wl_mint_of a sl s1 c = true ->
+  (forall stage proof alloc choice v ent,
+     c_op c = OMint stage proof alloc choice -> c_wv c = Some v ->
+     entitlement vr v proof alloc = Some ent -> ent <= ient) ->
+  tally vr (wl_total_ev a sl) s0 (cs1 ++ [c]) (get (slot_map s0 sl) a) <= ient.
+Proof.
+  cbn zeta. intros H Hp Hf.
+  destruct (never_exceeds_whitelist vr a sl s0 cs1 c s2 ms H Hp) as (stage & proof & alloc & choice & v & ent & Ho & Hwv & He & Hle).
+  specialize (Hf stage proof alloc choice v ent Ho Hwv He). lia.
+Qed.
